@@ -179,9 +179,9 @@ coefficients `c` satisfy, for **any** initial value `c0` of the causal pass (the
 geometric sum), `⅛c[k−1] + ¾c[k] + ⅛c[k+1] = f[k]` resp. `⅙c[k−1] + ⅔c[k] + ⅙c[k+1] = f[k]` at every interior
 sample `1 ≤ k ≤ n−2`, and the same with the mirrored knot `c[n] = c[n−2]` at the last sample: by
 `C18_integer_weights` this is "the B-spline expansion reproduces the input at the sample points" for all samples
-`k ≥ 1`. **Missing**: sample 0 (it depends on the initialisation of the causal sum, which the code cuts at
-`e^−16`; there the property holds to about `1e−7` only and is checked numerically), the two-pole orders 4 and 5,
-and the fact that the floating-point poles are only approximate roots. -/
+`k ≥ 1`. **Missing**: sample 0 (it depends on the initialisation of the causal sum — the closed form of the
+mirrored geometric series, cut at `1e−15` on long lines — and is checked numerically), the two-pole orders 4 and 5
+(see `C18_prefilter_inverts_order4_partial`), and the fact that the floating-point poles are only approximate roots. -/
 theorem C18_prefilter_inverts_partial {K : Type} [Field K] (z c0 : K) (n : Nat) (hn : 2 ≤ n)
     (hz1 : z * z - 1 ≠ 0) (f : Nat → K) :
     (z * z + 6 * z + 1 = 0 → (8 : K) ≠ 0 →
